@@ -52,6 +52,7 @@ func main() {
 	onlyRule := flag.String("rule", "", "internal: restrict output to one rule")
 	jsonOut := flag.Bool("json", false, "internal: print obligations as JSON")
 	manifest := flag.Bool("manifest", false, "print MANIFEST.json for the registered properties")
+	knownShapes := flag.Bool("known-shapes", false, "developer tool: print function signatures and struct fields (for spec/known_shapes.json)")
 	knownFuncs := flag.Bool("known-funcs", false, "developer tool: print the list of module functions (for spec/known_funcs.json)")
 	sweepall := flag.Bool("sweepall", false, "developer tool: neutralise every statement once and list which properties detect it")
 	recipes := flag.Bool("recipes", false, "debug: print everything the spec tables are compared with")
@@ -93,6 +94,16 @@ func main() {
 		}
 		sort.Strings(names)
 		b, _ := json.MarshalIndent(names, "", " ")
+		fmt.Println(string(b))
+		return
+	}
+	if *knownShapes {
+		p, err := load(*repo, quickConfigs[0], nil, 0, nil)
+		if err != nil {
+			fmt.Fprintln(os.Stderr, err)
+			os.Exit(2)
+		}
+		b, _ := json.MarshalIndent(collectShapes(p.Pkgs), "", " ")
 		fmt.Println(string(b))
 		return
 	}
